@@ -479,6 +479,11 @@ def run(tier: str, seed: int) -> int:
         if i % 3 == 1:
             cw.with_mixins(c, 1)  # @mixin on fields and fragment definitions: the codegen-only directive must not reach any plugin's copy of the operation strings
         cases.append(c)
+    # the harness's own corpus of order-dependent shapes (root-type fragments shared by several operations, fragments used in part, ...), in every definition order
+    for k, cc in enumerate(c_ for c_ in cw.corpus_cases("C15", tier) if str(c_.get("corpus", "")).split("/")[0] in ("order_shapes",)):
+        cc = dict(cc, n_ops=3)
+        cc["plugin_lists"] = [[SR], [EO], [SR, EO, NR] if k % 2 else [FR, SR], [ID]]
+        cases.append(cc)
 
     def on_result(case, res):
         r.add(case, res)
